@@ -44,6 +44,20 @@ def pick (trusted : List Str) (dflt : Str) : List Str → Str
 def cHttp : Str := ofAscii "http"
 def cHttps : Str := ofAscii "https"
 
+/-- `ip.partition("%")[2]`: the text after the first `%` (empty when there is none) -/
+def zoneOf (ip : Str) : Str :=
+  match C43.splitFirst 37 ip with
+  | some (_, z) => z
+  | none => []
+
+/-- `netutil.is_valid_ip` as it is after the `fix:` commits (non-ASCII text and a zone id containing ":" are refused
+    before the resolver is asked); `gai ip` = `getaddrinfo(ip, 0, AF_UNSPEC, SOCK_STREAM, 0, AI_NUMERICHOST)` returned
+    a non-empty list (`EAI_NONAME` and `UnicodeError` are `false`) -/
+def isValidIp (gai : Str → Bool) (ip : Str) : Bool :=
+  if ip.isEmpty || ip.contains 0 || !C43.isAscii ip then false
+  else if (zoneOf ip).contains 58 then false
+  else gai ip
+
 /-- `_apply_xheaders` -/
 def applyX (valid : Str → Bool) (c : Ctx) (h : Headers) : Ctx :=
   let ip0 := (hget h "X-Forwarded-For").getD c.remoteIp
